@@ -1321,3 +1321,23 @@ impl<'a> TInputProtocol for TBinaryUnsafeInputProtocol<'a> {
         }
     }
 }
+
+// Verification hooks (add-only, compiled only with `--cfg pilota_verif`): expose the cursor
+// accounting of the unchecked codec.
+#[cfg(pilota_verif)]
+impl<T> TBinaryUnsafeOutputProtocol<T> {
+    /// (index, buf.len())
+    #[doc(hidden)]
+    pub fn verif_cursor(&self) -> (usize, usize) {
+        (self.index, self.buf.len())
+    }
+}
+
+#[cfg(pilota_verif)]
+impl<'a> TBinaryUnsafeInputProtocol<'a> {
+    /// (index, trans.len(), buf.len())
+    #[doc(hidden)]
+    pub fn verif_cursor(&self) -> (usize, usize, usize) {
+        (self.index, self.trans.len(), self.buf.len())
+    }
+}
